@@ -88,6 +88,11 @@ def stream_len(tier, seed):
         for k in range(0, w + 3):
             for fill in (0x00, 0xFF, 0x01):
                 add(bytes([first]) + bytes([fill]) * k, (0, 5))
+    for fpath in sorted(glob.glob(os.path.join(os.path.dirname(os.path.dirname(os.path.abspath(__file__))), "corpus", "*.case"))):
+        for ln in open(fpath):
+            f = ln.strip().split(" ")
+            if f[0] == "P" and len(f) >= 6 and f[2] in ("parse_len", "scan_len"):
+                lines.append("P len.c%d %s %s %s %s" % (len(lines), f[2], f[3], f[4], f[5]))
     return lines
 
 
@@ -145,6 +150,11 @@ def stream_num(tier, seed):
     for ln in range(0, 6):
         for want in [0, 1, 2, 3, 5, 6, 7, 1 << 32, (1 << 63), btc.U64MAX]:
             add("read_slice", bytes(range(ln)), want)
+    for fpath in sorted(glob.glob(os.path.join(os.path.dirname(os.path.dirname(os.path.abspath(__file__))), "corpus", "*.case"))):
+        for ln in open(fpath):
+            f = ln.strip().split(" ")
+            if f[0] == "P" and len(f) >= 6 and f[2] in ("u8", "u16", "u32", "i32", "u64", "read_u8", "read_u16", "read_u32", "read_i32", "read_u64", "read_slice"):
+                lines.append("P num.c%d %s %s %s %s" % (len(lines), f[2], f[3], f[4], f[5]))
     return lines
 
 
@@ -499,7 +509,11 @@ def stream_struct(tier, seed):
             ln = ln.strip()
             if ln.startswith("P "):
                 parts = ln.split()
+                if parts[2] not in BSL_ENTRIES:
+                    continue
                 group(parts[2], bytes.fromhex(parts[3]) if parts[3] != "-" else b"", [], 3, param=int(parts[4]), tag="regress", maxbrk=4)
+                if int(parts[5]) >= 0:
+                    lines.append("P g%d.b%s %s %s %s %s" % (g - 1, parts[5], parts[2], parts[3], parts[4], parts[5]))
     return lines, meta
 
 
@@ -576,6 +590,12 @@ def stream_cache(tier, seed):
             else:
                 ops.append("f")
         emit(cap, ops)
+    # regression corpus (minimised past findings and seeded changes)
+    for fpath in sorted(glob.glob(os.path.join(os.path.dirname(os.path.dirname(os.path.abspath(__file__))), "corpus", "*.case"))):
+        for ln in open(fpath):
+            f = ln.strip().split(" ")
+            if f[0] == "K" and len(f) >= 3:
+                emit(int(f[2]), [o for o in f[3:] if o])
     return lines
 
 
